@@ -118,7 +118,24 @@ def run(tier):
                     {"no_failing_input": True, "what_no_longer_checks": broken, "theorems": names_thm})
     report.assumptions = ["a generator that is abandoned WITHOUT being closed keeps logging disabled until it is garbage collected: the runner deletes its reference, CPython then closes it at once",
                           "logging.basicConfig (handler installation) is not among the effects the property lists"]
-    extra = {"rule": "random histories of 3-12 (quick) / 3-30 (thorough) calls of convert (return / stdout / file / missing file), convert_generator (exhausted, abandoned, closed or not), Glycan + get_smiles / summary / count / save_dot / get_tree, over a pool of inputs covering open forms with and without resizing, acids, anhydro, D/L, amino, modifications and failures; each call is compared with the same call made first in a fresh interpreter; the shared tables are snapshot after every call",
+    # one object used repeatedly: what it returns does not depend on what was called on it before
+    import gen as _G
+    pool = ["Man(a1-4)Glc", "Man(a1-4)Glc6Leu", "Gal3Alloc(b1-4)GlcNAc", "Fuc(a1-?)Gal(b1-4)Glc", "Neu5Ac(a2-3)Gal(b1-4)Glc", "Glc6Leu", "Fuc6d", "Unk(a1-4)Glc",
+            "Man(a1-3)[Man(a1-6)]Man(b1-4)GlcNAc", "Glc-ol", "GlcNAc6S3Leu", "{Fuc(a1-2)}Gal(b1-4)Glc"]
+    kws = [{}, {"tree_only": True}, {"full": False}, {"tree_only": True, "full": False}, {"root_orientation": "a"}, {"tree_only": True, "root_orientation": "b"}, {"start": 3}]
+    oitems = [{"iupac": g_, "kw": k_} for g_ in pool for k_ in kws]
+    oouts = C.run_impl_parallel("object_repeat", oitems, extra={"tmp": os.path.join(C.BUILD, "tmp_c11")})
+    obj_cases = 0
+    for it_, o_ in zip(oitems, oouts):
+        if o_.get("exc") or len(o_["smiles"]) != 3:
+            continue
+        obj_cases += 1
+        report.case("object:" + it_["iupac"] + json.dumps(it_["kw"], sort_keys=True), True)
+        if len(set(o_["smiles"])) != 1 or o_["summary_ok"][0] != o_["summary_ok"][1]:
+            report.fail({"site": "glycan-object", "kind": "result-depends-on-earlier-calls", "options": json.dumps(it_["kw"], sort_keys=True)},
+                        {"input": it_["iupac"], "options": it_["kw"], "get_smiles_1st_2nd_3rd": o_["smiles"], "summary_1st_2nd": o_["summary_ok"],
+                         "problem": "the same object gives different results depending on what was called on it before (get_smiles, summary, count, save_dot in between)"})
+    extra = {"object_reuse_cases": obj_cases, "rule": "random histories of 3-12 (quick) / 3-30 (thorough) calls of convert (return / stdout / file / missing file), convert_generator (exhausted, abandoned, closed or not), Glycan + get_smiles / summary / count / save_dot / get_tree, over a pool of inputs covering open forms with and without resizing, acids, anhydro, D/L, amino, modifications and failures; each call is compared with the same call made first in a fresh interpreter; the shared tables are snapshot after every call",
              "calls_in_histories": n_calls, "distinct_calls_run_fresh": len(keys),
              "print_assumptions": res.assumptions.get(f"Props/{PROP}.v", "").strip().splitlines()[-4:],
              "partial": "history independence of results is decided by the differential runs; proved: convert() leaves the modelled process state unchanged on the returning and the exception path, effect-site inventory"}
